@@ -535,16 +535,14 @@ theorem hcell_of_cell_tools (U : Matrix (Fin 3) (Fin 3) ℝ) (cell' : Fin 6 → 
 /-- C02.3 (laue): the Rodrigues vector of the UBI is the Rodrigues vector of `U`. -/
 theorem ubi_to_rod_u_to_ubi_laue (hU : Spec.IsRot U) (h : Spec.ValidCell cell) :
     Laue.ubi_to_rod (Laue.u_to_ubi U cell) = Laue.u_to_rod U := by
-  unfold Laue.ubi_to_rod
-  rw [ubi_to_u_u_to_ubi_laue hU h]
-  cases Laue.u_to_rod U <;> rfl
+  simp only [Laue.ubi_to_rod, ubi_to_u_u_to_ubi_laue hU h]
+  cases Laue.u_to_rod U <;> simp
 
 /-- C02.3 (tools): the Rodrigues vector of the UBI is the Rodrigues vector of `U`. -/
 theorem ubi_to_rod_u_to_ubi_tools (hU : Spec.IsRot U) (h : Spec.ValidCell cell) :
     Tools.ubi_to_rod (Tools.u_to_ubi U cell) = Tools.u_to_rod U := by
-  unfold Tools.ubi_to_rod
-  rw [ubi_to_u_u_to_ubi_tools hU h]
-  cases Tools.u_to_rod U <;> rfl
+  simp only [Tools.ubi_to_rod, ubi_to_u_u_to_ubi_tools hU h]
+  cases Tools.u_to_rod U <;> simp
 
 /-- C02.3/5 (laue) `ubi_to_u_b`: the matrix handed to `ub_to_u_b` is `inv(ubi) = U·B`, hence ANY QR output for it is
 normalised to `(U, B)`: decomposing the UBI returns the same `U` and the same `B`. -/
